@@ -69,6 +69,7 @@ static void hexs(const char *s) { hk_hex(s, strlen(s)); }
 
 /* ------------------------------------------------------------------------------------------- option generator */
 
+#define VALSZ 512 /* a -t / -c value: up to 100 chunk lengths */
 #define MAXARG 24
 #define ARGSZ 3200 /* up to three paths of 900 characters (names of 255 characters inside nested vgroups) */
 static char  argbuf[MAXARG][ARGSZ];
@@ -131,17 +132,44 @@ static void list_objects(const tg_spec_t *s)
         if (!(sv & (1u << i)) && !tg_reserved_class(s->vs[i].cls)) { strcpy(objs[nobjs].kind, "vs"); strcpy(objs[nobjs].path, s->vs[i].name); objs[nobjs].sds = objs[nobjs].gr = -1; nobjs++; }
 }
 
-/* can this path stand in an object list of -t / -c ? (an empty list entry makes the parser read an uninitialised name: bin/props.py assumptions) */
+/* can this path stand in an object list of -t / -c and name the object ? (a ',' inside would split it; malformed lists - empty, ending
+   with ',', empty entries, over-long names - are produced on purpose by gen_names in the messy mode) */
 static int path_optsafe(const char *p)
 {
     size_t n = strlen(p);
     return n > 0 && n < 900 && p[0] != ',' && p[n - 1] != ',' && !strstr(p, ",,");
 }
 
+/* a name of exactly `n` characters (the parser's obj[H4_MAX_NC_NAME] holds 254 and the NUL it appends) */
+static void long_name(char *out, int n)
+{
+    int i;
+    for (i = 0; i < n; i++) out[i] = (char)('a' + (i % 23));
+    out[n] = 0;
+}
+
 static void gen_names(char *out, int allow_star, int messy)
 {
     int k, n;
     out[0] = 0;
+    if (messy && hk_chance(22)) {
+        /* the families behind the fixed parser defects (known_findings.json, property C18): an EMPTY object list and a list that ENDS WITH
+           ',' (b6f2d28: *n_objs announced one name more than the loop stored; the unwritten obj_list entry was strcmp'ed / strcpy'ed),
+           empty entries elsewhere (legal: an empty name), names around the capacity of obj[H4_MAX_NC_NAME] (a29fdb9) */
+        static const char *lists[] = {"", ",", "sds0,", "a,b,", ",sds0", "a,,b", ",,", "*,", ",*", "a,"};
+        int pick = (int)hk_range(0, 13);
+        if (pick < 10) strcpy(out, lists[pick]);
+        else {
+            static const int lens[] = {253, 254, 255, 256, 300, 700};
+            char nm[800];
+            long_name(nm, lens[hk_range(0, 5)]);
+            if (pick == 10) strcpy(out, nm);
+            else if (pick == 11) sprintf(out, "a,%s", nm);
+            else if (pick == 12) sprintf(out, "%s,b", nm);
+            else sprintf(out, "%s,", nm);
+        }
+        return;
+    }
     if (allow_star && hk_chance(35)) { strcpy(out, "*"); if (messy && hk_chance(10)) strcat(out, ",zz"); return; }
     n = (int)hk_range(1, hk_chance(25) ? 3 : 1);
     for (k = 0; k < n; k++) {
@@ -160,7 +188,30 @@ static void gen_names(char *out, int allow_star, int messy)
 static void gen_comp_value(char *out, int messy)
 {
     static const char *bad[] = {"", "RLE 1", "HUFF", "GZIP", "JPEG", "GZIP 10", "HUFF 0", "GZIP x", "LZW", "gzip 1", "GZIP 1x", "SZIP 8,NN", "SZIP 8,XX", "SZIP 8", "NONE 1", "RLE ", "HUFF 1 ", "ABCDEFGHI", "HUFF  2", "GZIP 0009", " RLE", "JPEG 101",
-                                "ABCDEFGHIJ", "ABCDEFGHIJKLMNOP", "ABCDEFGHI 1", "GZIP 12345", "GZIP 00001", "HUFF 9999", "HUFF 10000", "SZIP", "NONE ", "GZIP ", "HUFF ", "RLE:", "GZIP 5:RLE"};
+                                "ABCDEFGHIJ", "ABCDEFGHIJKLMNOP", "ABCDEFGHI 1", "GZIP 12345", "GZIP 00001", "HUFF 9999", "HUFF 10000", "SZIP", "NONE ", "GZIP ", "HUFF ", "RLE:", "GZIP 5:RLE",
+                                /* the szip scanner: a third / fourth mask character (6a32560: smask[3] was written at index 3), a second ',',
+                                   parameters around the capacity of stype[5], masks without parameter */
+                                "SZIP ,ECAB", "SZIP ,ECA", "SZIP 8,ECA", "SZIP 8,ECAB", "SZIP 8,NNNN", "SZIP 8,EC,NN", "SZIP 8,E", "SZIP 8,", "SZIP ,", "SZIP ,EC", "SZIP 12,EC", "SZIP 123,NN",
+                                "SZIP 1234,EC", "SZIP 12345", "SZIP 1234", "SZIP 12,ECABCDEFGH", "SZIP ,,,,", "SZIP 8,EC ", "SZIP 8 ,EC",
+                                /* every scratch array at and one beyond its capacity: scomp[10] (9 characters fit), stype[5] (4 digits fit) */
+                                "ABCDEFGHI", "ABCDEFGHIJ 1", "ABCDEFGH 1", "GZIP 1234", "GZIP 123456789012", "NONE 1234", "NONE 12345", "HUFF 1234", "HUFF 12345",
+                                /* bytes >= 0x80 where isdigit looks (1ed2b56: a negative plain char was handed to isdigit) */
+                                "GZIP \351", "GZIP 1\351", "\351\351", "GZIP \2001"};
+    if (messy && hk_chance(8)) {
+        /* a valid mask right after the blank and one or two characters more: before 6a32560 the fourth character went to smask[3] */
+        static const char *over[] = {"SZIP ,ECAB", "SZIP ,NNNN", "SZIP ,ECEC", "SZIP ,NNAB", "SZIP ,ECA", "SZIP ,NNN"};
+        strcpy(out, over[hk_range(0, 5)]);
+        return;
+    }
+    if (messy && hk_chance(15)) {
+        /* a coder name of 8..11 characters, as the last token and before a blank: scomp[10] holds 9 characters and the NUL (a29fdb9) */
+        static const int nlen[] = {8, 9, 9, 10, 10, 10, 11};
+        int n = nlen[hk_range(0, 6)], i;
+        for (i = 0; i < n; i++) out[i] = (char)('A' + i);
+        out[n] = 0;
+        if (hk_chance(40)) strcat(out, hk_chance(50) ? " 1" : " ");
+        return;
+    }
     if (messy && hk_chance(30)) { strcpy(out, bad[hk_range(0, (long)(sizeof bad / sizeof bad[0]) - 1)]); return; }
     switch ((int)hk_range(0, 9)) {
         case 0: case 1: strcpy(out, "RLE"); break;
@@ -174,8 +225,22 @@ static void gen_comp_value(char *out, int messy)
 /* chunk value; `rank`/`dims` of the object the names refer to when known (rank 0: unknown) */
 static void gen_chunk_value(char *out, int rank, const int32 *dims, int messy)
 {
-    static const char *bad[] = {"", "0", "2x0", "2y2", "NONE2", "NON", "x2", "2xx2", "-2", "2 x2", "ONE", "2xNONE", "123456789", "00", "2x", "x", "1234567890", "12345678x2", "123456789x2", "2N", "N2", "1x1x1x1x1x1x1", "NONEx2", "2:2"};
+    static const char *bad[] = {"", "0", "2x0", "2y2", "NONE2", "NON", "x2", "2xx2", "-2", "2 x2", "ONE", "2xNONE", "123456789", "00", "2x", "x", "1234567890", "12345678x2", "123456789x2", "2N", "N2", "1x1x1x1x1x1x1", "NONEx2", "2:2", "12345678", "999999999", "1x999999999", "\351", "2x\351", "2\3512"};
     int i;
+    if (messy && hk_chance(12)) {
+        /* the number of lengths around the capacity of the caller's chunk_lengths[H4_MAX_VAR_DIMS] (5787e18: the 33rd length was written
+           beyond it), also with NONE / a zero / a bad character in the last place, and sdim[10] at and beyond its capacity */
+        static const int cnt[] = {31, 32, 33, 34, 40, 64, 100};
+        int n = cnt[hk_range(0, 6)], tail = (int)hk_range(0, 5);
+        out[0] = 0;
+        for (i = 0; i < n; i++) strcat(out, i ? "x1" : "1");
+        if (tail == 1) strcat(out, "xNONE");
+        else if (tail == 2) strcat(out, "x0");
+        else if (tail == 3) strcat(out, "x");
+        else if (tail == 4) strcat(out, "x123456789");
+        else if (tail == 5) strcat(out, "x1234567890");
+        return;
+    }
     if (messy && hk_chance(30)) { strcpy(out, bad[hk_range(0, (long)(sizeof bad / sizeof bad[0]) - 1)]); return; }
     if (hk_chance(20)) { strcpy(out, "NONE"); return; }
     if (rank <= 0 || hk_chance(8)) rank = (int)hk_range(1, 4);
@@ -246,11 +311,11 @@ static void gen_options(int messy)
     /* shuffle candidates */
     for (i = nc - 1; i > 0; i--) { int j = (int)hk_range(0, i), t = cand[i]; cand[i] = cand[j]; cand[j] = t; }
     if (cmode < 25) { /* no -t */ }
-    else if (cmode < 55 || nc == 0) { char v[64]; gen_comp_value(v, messy); snprintf(opts[n], sizeof opts[0], "*:%s", v); kind[n++] = 't'; }
+    else if (cmode < 55 || nc == 0) { char v[VALSZ]; gen_comp_value(v, messy); snprintf(opts[n], sizeof opts[0], "*:%s", v); kind[n++] = 't'; }
     else {
         int no = (int)hk_range(1, nc < 3 ? nc : 3), used = 0;
         while (used < no && n < 10) {
-            char v[64], names[3000] = ""; int take = (int)hk_range(1, (no - used) < 2 ? (no - used) : 2), q;
+            char v[VALSZ], names[3000] = ""; int take = (int)hk_range(1, (no - used) < 2 ? (no - used) : 2), q;
             for (q = 0; q < take; q++) { if (q) strcat(names, ","); strcat(names, objs[cand[used + q]].path); }
             used += take;
             gen_comp_value(v, messy);
@@ -259,14 +324,14 @@ static void gen_options(int messy)
     }
     if (kmode < 30) { /* no -c */ }
     else if (kmode < 55 || nc == 0) {
-        char v[64], names[8] = "*"; int rank; int32 dims[TG_MAXRANK] = {0};
+        char v[VALSZ], names[8] = "*"; int rank; int32 dims[TG_MAXRANK] = {0};
         rank_of_names(names, &rank, dims); gen_chunk_value(v, rank, dims, messy);
         snprintf(opts[n], sizeof opts[0], "*:%s", v); kind[n++] = 'c';
     }
     else {
         int no = (int)hk_range(1, nc < 3 ? nc : 3), used;
         for (used = 0; used < no && n < 10; used++) {
-            char v[64]; int rank; int32 dims[TG_MAXRANK] = {0};
+            char v[VALSZ]; int rank; int32 dims[TG_MAXRANK] = {0};
             int o = cand[(used + (hk_chance(50) ? 0 : 1)) % nc]; /* often the same objects as -t */
             int dup = 0;
             for (k = 0; k < n; k++) if (kind[k] == 'c' && strncmp(opts[k], objs[o].path, strlen(objs[o].path)) == 0 && opts[k][strlen(objs[o].path)] == ':') dup = 1;
@@ -280,7 +345,7 @@ static void gen_options(int messy)
         /* conflicting / malformed extras drawn from the old free generator */
         int extra = (int)hk_range(1, 2);
         while (extra-- > 0 && n < 11) {
-            char names[3000], v[64]; int rank; int32 dims[TG_MAXRANK] = {0};
+            char names[3000], v[VALSZ]; int rank; int32 dims[TG_MAXRANK] = {0};
             switch ((int)hk_range(0, 3)) {
                 case 0: gen_names(names, 1, 1); gen_comp_value(v, 1); snprintf(opts[n], sizeof opts[0], hk_chance(5) ? "%s%s" : "%s:%s", names, v); kind[n++] = 't'; break;
                 case 1: gen_names(names, 1, 1); rank_of_names(names, &rank, dims); gen_chunk_value(v, rank, dims, 1); snprintf(opts[n], sizeof opts[0], hk_chance(5) ? "%s%s" : "%s:%s", names, v); kind[n++] = 'c'; break;
@@ -297,17 +362,38 @@ static void gen_options(int messy)
         c = kind[i]; kind[i] = kind[j]; kind[j] = c;
     }
     for (k = 0; k < n;) {
-        if (kind[k] != 'm' && hk_chance(15) && strlen(opts[k]) < 300) {
+        if (kind[k] != 'm' && hk_chance(15) && strlen(opts[k]) < 900) {
             /* move 1..3 consecutive -t/-c options into an option file */
-            char content[1800] = "", fn[64]; FILE *f; int cnt = (int)hk_range(1, 3);
-            while (cnt-- > 0 && k < n && kind[k] != 'm' && strlen(opts[k]) < 300) {
-                char line[600];
+            static char content[ARGSZ]; char fn[64]; FILE *f; int cnt = (int)hk_range(1, 3);
+            content[0] = 0;
+            while (cnt-- > 0 && k < n && kind[k] != 'm' && strlen(opts[k]) < 900) {
+                char line[1000];
                 snprintf(line, sizeof line, "-%c \"%s\"%s", kind[k], opts[k], hk_chance(70) ? "\n" : " ");
-                if (strlen(content) + strlen(line) < 580) strcat(content, line); /* margbuf is 600 bytes */
+                if (strlen(content) + strlen(line) < ARGSZ - 1400) strcat(content, line); /* margbuf holds ARGSZ bytes */
                 k++;
             }
             if (messy && hk_chance(15)) strcat(content, "-x 1\n");
             if (messy && hk_chance(10)) strcat(content, "-t \"sds0:RLE");
+            if (messy && hk_chance(25)) {
+                /* read_info's own buffers (hrepack.c): a token of 9 / 10 / more characters for stype[10] (read with %9s), a quoted value
+                   around the capacity of info[1024] */
+                static const char *tok[] = {"ABCDEFGHI", "ABCDEFGHIJ", "ABCDEFGHIJKLMNOPQRSTUVWXYZ", "-tABCDEFGHIJKL", "-t-t-t-t-t-t", "-cccccccccc"};
+                int pick = (int)hk_range(0, 9);
+                if (pick < 6) { strcat(content, tok[pick]); strcat(content, hk_chance(50) ? "\n" : " \"a:RLE\"\n"); }
+                else {
+                    static const int vlen[] = {1022, 1023, 1024, 1100};
+                    int vl = vlen[pick - 6], nl, q;
+                    char *e = content + strlen(content);
+                    /* -t "<name>:RLE" / -c "<name>:2" whose value has exactly vl characters (the name is over-long for obj[]: the parser
+                       rejects it when the value still fits in info[]) */
+                    const char *tail = hk_chance(50) ? ":RLE" : ":2";
+                    int isc = tail[1] == '2';
+                    nl = vl - (int)strlen(tail);
+                    e += sprintf(e, "-%c \"", isc ? 'c' : 't');
+                    for (q = 0; q < nl; q++) *e++ = (char)('a' + q % 7);
+                    sprintf(e, "%s\"\n", tail);
+                }
+            }
             snprintf(fn, sizeof fn, "opt_%d_%d.txt", hk_case_no, optfile_no++);
             f = fopen(hk_tmp(fn), "w");
             if (f) { fputs(content, f); fclose(f); }
@@ -330,30 +416,21 @@ static void print_names(obj_list_t *l, int n)
     for (i = 0; i < n; i++) { if (i) printf(","); hexs(l[i].obj); }
 }
 
-/* can the string be handed to the in-process parser without leaving its fixed buffers / reading uninitialised names?
-   (scomp[10], stype[5], sdim[10]; every name non-empty).  The model has the same precondition (`Tools.safeOpt`). */
-static int names_ok(const char *s)
+/* Every option string goes to the in-process parser of the tree under test: the defects that once made some of them unsafe (an object
+   list that is empty or ends with ',', more than H4_MAX_VAR_DIMS chunk lengths, a third szip mask character, bytes >= 0x80 handed to
+   isdigit, over-long option-file tokens / values) are fixed in /repo (known_findings.json, property C18); if one comes back, the engine
+   itself stops under ASan / UBSan and bin/check reports the case under the sanitizer key. */
+/* implementation-side oracle (no model involved): every one of the *n_objs entries the parser announces must have been written.
+   Under ASan malloc'ed memory holds the fill byte 0xbe until it is written; an entry that is still all fill was never stored
+   (the defect fixed by b6f2d28: empty object list / list ending with ','). */
+static int check_names_written(const char *what, const char *str, obj_list_t *l, int n)
 {
-    const char *colon = strrchr(s, ':');
-    const char *p;
-    if (!colon || colon == s) return 0;
-    if (s[0] == ',' || colon[-1] == ',') return 0;
-    for (p = s; p + 1 < colon; p++) if (p[0] == ',' && p[1] == ',') return 0;
-    return 1;
-}
-static int safe_comp(const char *s)
-{
-    if (!strrchr(s, ':')) return 1; /* rejected before any name is touched */
-    return names_ok(s);
-}
-static int safe_chunk(const char *s)
-{
-    const char *v = strrchr(s, ':');
-    int nx = 0;
-    if (!v) return 1;
-    for (; *v; v++) if (*v == 'x') nx++;
-    if (nx >= H4_MAX_VAR_DIMS) return 0; /* chunk_lengths[H4_MAX_VAR_DIMS] of the caller is not bounded by the parser */
-    return names_ok(s);
+    int i, j;
+    for (i = 0; i < n; i++) {
+        for (j = 0; j < H4_MAX_NC_NAME; j++) if ((unsigned char)l[i].obj[j] != 0xbe) break;
+        if (j == H4_MAX_NC_NAME) { hk_fail("parse-unwritten-object-name", "%s(\"%.60s\"): *n_objs = %d but obj_list[%d] was never written", what, str, n, i); return 1; }
+    }
+    return 0;
 }
 
 static void tie_parse_comp(const char *s)
@@ -361,9 +438,9 @@ static void tie_parse_comp(const char *s)
     comp_info_t c;
     int         n = -7;
     obj_list_t *l;
-    if (!safe_comp(s)) return;
     memset(&c, FAIL, sizeof c);
     l = parse_comp(s, &n, &c);
+    if (l && check_names_written("parse_comp", s, l, n)) { free(l); return; }
     printf("T repack parse_comp "); hexs(s); printf(" => ");
     if (!l) printf("fail\n");
     else { printf("ok %d ", n); print_names(l, n); printf(" %d %d\n", (int)c.type, c.info); free(l); }
@@ -373,8 +450,8 @@ static void tie_parse_chunk(const char *s)
     int32       len[H4_MAX_VAR_DIMS];
     int         n = -7, rank = -99, i;
     obj_list_t *l;
-    if (!safe_chunk(s)) return;
     l = parse_chunk(s, &n, len, &rank);
+    if (l && check_names_written("parse_chunk", s, l, n)) { free(l); return; }
     printf("T repack parse_chunk "); hexs(s); printf(" => ");
     if (!l) printf("fail\n");
     else {
@@ -383,27 +460,6 @@ static void tie_parse_chunk(const char *s)
         for (i = 0; i < rank; i++) printf("%s%d", i ? "," : "", (int)len[i]);
         printf("\n"); free(l);
     }
-}
-
-static int margs_safe(void)
-{
-    int i;
-    for (i = 0; i + 1 < nargs; i++) {
-        if (strcmp(margs[i], "-t") == 0 && !safe_comp(margs[i + 1])) return 0;
-        if (strcmp(margs[i], "-c") == 0 && !safe_chunk(margs[i + 1])) return 0;
-        if (strcmp(margs[i], "-f") == 0) {
-            /* every quoted string of the file */
-            const char *p = margs[i + 1];
-            while ((p = strchr(p, '"')) != NULL) {
-                const char *q = strchr(p + 1, '"'); char tmp[600];
-                if (!q) return 0;
-                snprintf(tmp, sizeof tmp, "%.*s", (int)(q - p - 1), p + 1);
-                if (!safe_comp(tmp) || !safe_chunk(tmp)) return 0;
-                p = q + 1;
-            }
-        }
-    }
-    return 1;
 }
 
 /* the option loop of hrepack_main.c:main on args[] (without -i/-o/-v). 0 = options ready, 1 = usage */
@@ -440,7 +496,6 @@ static int tie_options(void)
 {
     options_t o;
     int       r, i, k;
-    if (!margs_safe()) return -1;
     silence(1); r = build_options(&o); silence(0);
     printf("T repack options "); print_margs(); printf(" => ");
     if (r) printf("usage\n");
@@ -467,7 +522,6 @@ static void tie_getinfo(const char *path, int rank, int flags_in, int comp_in, i
     int   pfd[2], st, i;
     pid_t pid;
     char  buf[600] = "";
-    if (!margs_safe()) return;
     if (pipe(pfd) < 0) return;
     fflush(stdout);
     pid = fork();
